@@ -364,6 +364,49 @@ func (q *searcher) fullPoolReal() {
 	q.opUnmark(b)
 }
 
+// bigPack: more pending transactions than fit a block (limit clause, cut inside a sender's sequence).
+func (q *searcher) bigPack() {
+	s := q.s
+	q.hist = nil
+	q.onChain = map[common.Hash]int{}
+	var op string
+	hx.Guard(func() string { op = s.w.Reset(true, true, true, true, 0); return "" })
+	q.line(op)
+	s.all, s.chain, s.reqSeq = nil, nil, 100
+	s.srcs = canonicalSources(s.r)
+	next := map[string]uint64{}
+	for i := 0; i < 230+s.r.Intn(100); i++ {
+		src := s.srcs[s.r.Intn(len(s.srcs))]
+		var id int
+		var l string
+		if s.r.Bool() {
+			id, l = s.w.NewTx(s.r.Bytes(32), src, next[src], 0, 0)
+			next[src]++
+		} else {
+			s.reqSeq++
+			id, l = s.w.NewTx(s.r.Bytes(32), src, s.randNonce(), s.reqSeq, 0)
+		}
+		q.line(l)
+		s.all = append(s.all, id)
+		q.opAdd(id)
+	}
+	p := q.opPack()
+	var ids []int
+	for _, t := range p {
+		if id, ok := s.w.ids[t]; ok {
+			ids = append(ids, id)
+		}
+	}
+	if len(ids) > 0 {
+		b := block{rids: ids, tids: append([]int{}, ids...)}
+		if q.opMark(b) {
+			q.opPack()
+			q.opUnmark(b)
+			q.opPack()
+		}
+	}
+}
+
 func runSearch(a map[string]string, pool service.TransactionPool) {
 	r := hx.NewRng(hx.SeedFromEnv() ^ 0x5ea7c4)
 	s := &script{w: newWorld(pool), r: r}
@@ -376,6 +419,7 @@ func runSearch(a map[string]string, pool service.TransactionPool) {
 		}
 		q.history(30+r.Intn(200), limit)
 	}
+	q.bigPack()
 	q.fullPoolReal()
 	for _, f := range q.findings {
 		if len(f.History) > 4000 {
@@ -384,7 +428,7 @@ func runSearch(a map[string]string, pool service.TransactionPool) {
 		b, _ := json.Marshal(f)
 		fmt.Println("FINDING " + string(b))
 	}
-	fmt.Printf("SEARCH {\"evaluations\":%d,\"histories\":%d}\n", q.evals, n+1)
+	fmt.Printf("SEARCH {\"evaluations\":%d,\"histories\":%d}\n", q.evals, n+2)
 }
 
 // ---------------------------------------------------------------------------
@@ -537,6 +581,47 @@ func runRace(a map[string]string, pool service.TransactionPool) {
 		for _, p := range panics {
 			findings = append(findings, finding{"concurrent-panic", p, []string{fmt.Sprintf("mode=race seed=%d round=%d", hx.SeedFromEnv(), round)}})
 			break
+		}
+		// phase 2: blocks cast elsewhere arrive (MarkExecuted on the chain goroutine) while the same
+		// transactions are still being gossiped to this node (AddTransaction on a network goroutine).
+		// Whatever the order, a transaction that ends up executed must not also be pending.
+		nRemote := hx.ArgInt(a, "remote", 1500)
+		remote := make([]*types.Transaction, nRemote)
+		for i := range remote {
+			remote[i] = &types.Transaction{Source: srcs[i%len(srcs)], Type: types.TransactionTypeOperatorEvent, Nonce: uint64(i), RequestId: uint64(1000000 + i),
+				Hash: common.BytesToHash(r.Bytes(32)), Data: "r", Time: "t", ChainId: "9500"}
+		}
+		var wg2 sync.WaitGroup
+		wg2.Add(2)
+		go func() {
+			defer wg2.Done()
+			for _, tx := range remote {
+				tx := tx
+				guard("AddTransaction", func() { pool.AddTransaction(tx) })
+			}
+		}()
+		go func() {
+			defer wg2.Done()
+			for i, tx := range remote {
+				header := &types.BlockHeader{Height: uint64(100000 + i), Hash: common.BytesToHash([]byte(fmt.Sprintf("remote-%d-%d", round, i)))}
+				rc := types.NewReceipt(nil, false, 0, header.Height, "ok", tx.Source, "")
+				rc.TxHash = tx.Hash
+				list := []*types.Transaction{tx}
+				guard("MarkExecuted", func() { pool.MarkExecuted(header, types.Receipts{rc}, list, nil) })
+			}
+		}()
+		wg2.Wait()
+		evals++
+		pend2 := map[common.Hash]bool{}
+		for _, t := range pool.GetReceived() {
+			pend2[t.Hash] = true
+		}
+		for _, tx := range remote {
+			if pool.GetExecuted(tx.Hash) != nil && pend2[tx.Hash] {
+				findings = append(findings, finding{"concurrent-readmit", tx.Hash.String() + " is executed and pending: AddTransaction checked for existence before MarkExecuted wrote the record and pushed after it removed the hash",
+					[]string{fmt.Sprintf("mode=race seed=%d round=%d remote=%d", hx.SeedFromEnv(), round, nRemote)}})
+				break
+			}
 		}
 	}
 	seen := map[string]bool{}
